@@ -28,6 +28,9 @@ type Static struct {
 
 const allButDriverType = 0xFE
 
+// renamedPrefix: see genVariantDef, style "renamed".
+const renamedPrefix = "v-"
+
 // startOnlyPinned: levels of the shipped definitions without an escalate command (Gen must be a
 // pure function, so it cannot look into the assets; Run re-derives this from the definition).
 var startOnlyPinned = map[string]bool{"nokia_sros/configuration-with-path": true}
@@ -52,7 +55,10 @@ func deepCopy(v interface{}) interface{} {
 
 // genVariantDef adds a variant "gen" to a definition: for every section in mask a value that
 // differs from the default's.
-func genVariantDef(ab []byte, mask int, _ string) ([]byte, error) {
+// With style "renamed" the variant's privilege levels carry new names (prefix renamedPrefix on
+// keys, names and previous-priv links) and, when the variant defines both sections, its default
+// desired level is one of the NEW names - a name the base definition does not have.
+func genVariantDef(ab []byte, mask int, style string) ([]byte, error) {
 	var raw map[string]interface{}
 	if err := yaml.Unmarshal(ab, &raw); err != nil {
 		return nil, err
@@ -90,6 +96,19 @@ func genVariantDef(ab []byte, mask int, _ string) ([]byte, error) {
 					}
 				}
 			}
+			if style == "renamed" {
+				rn := map[string]interface{}{}
+				for k, e := range lv {
+					if m, ok := e.(map[string]interface{}); ok {
+						m["name"] = renamedPrefix + str(m["name"])
+						if x := str(m["previous-priv"]); x != "" {
+							m["previous-priv"] = renamedPrefix + x
+						}
+					}
+					rn[renamedPrefix+k] = e
+				}
+				lv = rn
+			}
 			v[s] = lv
 		case "default-desired-privilege-level":
 			cur := str(def["default-desired-privilege-level"])
@@ -106,6 +125,9 @@ func genVariantDef(ab []byte, mask int, _ string) ([]byte, error) {
 					pick = k
 					break
 				}
+			}
+			if style == "renamed" && mask&(1<<4) != 0 {
+				pick = renamedPrefix + pick
 			}
 			v[s] = pick
 		case "network-on-open":
@@ -309,19 +331,28 @@ func runGenVariants(name string) mon.Result {
 		return *v
 	}
 	obs := map[string]int64{}
-	for mask := 0; mask < 1<<len(sections); mask++ {
-		gb, err := genVariantDef(ab, mask, "")
-		if err != nil {
-			return mon.Result{Verdict: mon.Inconclusive, Detail: "harness: " + err.Error()}
+	for _, style := range []string{"", "renamed"} {
+		for mask := 0; mask < 1<<len(sections); mask++ {
+			gb, err := genVariantDef(ab, mask, style)
+			if err != nil {
+				return mon.Result{Verdict: mon.Inconclusive, Detail: "harness: " + err.Error()}
+			}
+			label := name + "/generated"
+			if style != "" {
+				label += "-" + style
+			}
+			if _, v := checkVariantLoad(label, gb, gb, "gen", nil, false); v != nil {
+				v.Detail = fmt.Sprintf("generated variant (level names: %q) defining sections %v: %s", style, maskSections(mask), v.Detail)
+				return *v
+			}
+			obs["generated_variants_merged"]++
+			if style == "renamed" && mask&(1<<4) != 0 && mask&(1<<5) != 0 {
+				obs["generated_variants_with_renamed_levels_and_default"]++
+			}
 		}
-		if _, v := checkVariantLoad(name+"/generated", gb, gb, "gen", nil, false); v != nil {
-			v.Detail = fmt.Sprintf("generated variant defining sections %v: %s", maskSections(mask), v.Detail)
-			return *v
-		}
-		obs["generated_variants_merged"]++
 	}
 	return mon.Result{Verdict: mon.Held, NonTrivial: true, Obs: obs, Tags: []string{"genvariants=" + name},
-		Sample: map[string]interface{}{"platform": name, "section_subsets": 1 << len(sections)}}
+		Sample: map[string]interface{}{"platform": name, "section_subsets": 1 << len(sections), "level_name_styles": []string{"base names", "renamed (" + renamedPrefix + "<name>)"}}}
 }
 
 func maskSections(mask int) []string {
@@ -480,6 +511,13 @@ func gen(tier string, seed int64) []mon.Case {
 			sessions("asset", n, "", lv)
 			// generated variant (every section but driver-type replaced): the merged result drives
 			dyn(n+"/generated", Dyn{Source: "genvariant", Platform: n, Start: lv[k%len(lv)], From: canon[n].Default, Targets: rotate(lv, k), CloseAt: lv[(k+1)%len(lv)]})
+			// generated variant whose levels carry NEW names and whose default is one of them
+			rl := make([]string, len(lv))
+			for i, x := range lv {
+				rl[i] = renamedPrefix + x
+			}
+			dyn(n+"/generated-renamed", Dyn{Source: "genvariant", Renamed: true, Platform: n, Start: rl[(k+1)%len(rl)], From: renamedPrefix + canon[n].Default,
+				Targets: rotate(rl, k+1), CloseAt: rl[k%len(rl)]})
 			// a user-chosen default level on top of the definition's
 			for i := range lv {
 				x := lv[(i+k)%len(lv)]
